@@ -20,11 +20,14 @@ package main
 import (
 	"flag"
 	"fmt"
+	"bytes"
 	"go/ast"
 	"go/parser"
+	"go/printer"
 	"go/token"
 	"os"
 	"path/filepath"
+	"sort"
 	"strings"
 )
 
@@ -116,6 +119,269 @@ func cond(e ast.Expr, en env) string {
 	return ""
 }
 
+// icond translates a condition over the signed `len` parameter alone (Int in Lean).
+func icond(e ast.Expr, param string) string {
+	var term func(e ast.Expr) string
+	term = func(e ast.Expr) string {
+		switch v := e.(type) {
+		case *ast.ParenExpr:
+			return term(v.X)
+		case *ast.Ident:
+			if v.Name == param {
+				return "ilen"
+			}
+		case *ast.BasicLit:
+			if v.Kind == token.INT {
+				var n uint64
+				if _, err := fmt.Sscan(v.Value, &n); err == nil {
+					return fmt.Sprintf("(%d : Int)", n)
+				}
+			}
+		}
+		fail(e, "argument check may only compare the length parameter with integer literals")
+		return ""
+	}
+	switch v := e.(type) {
+	case *ast.ParenExpr:
+		return icond(v.X, param)
+	case *ast.BinaryExpr:
+		switch v.Op {
+		case token.LAND:
+			return "(" + icond(v.X, param) + " && " + icond(v.Y, param) + ")"
+		case token.LOR:
+			return "(" + icond(v.X, param) + " || " + icond(v.Y, param) + ")"
+		case token.GTR, token.GEQ, token.LSS, token.LEQ, token.EQL, token.NEQ:
+			op := map[token.Token]string{token.GTR: ">", token.GEQ: "≥", token.LSS: "<", token.LEQ: "≤", token.EQL: "=", token.NEQ: "≠"}[v.Op]
+			return "decide (" + term(v.X) + " " + op + " " + term(v.Y) + ")"
+		}
+	}
+	fail(e, "argument check")
+	return ""
+}
+
+// src prints a node without comments (the files are parsed without them).
+func src(n ast.Node) string {
+	var b bytes.Buffer
+	_ = printer.Fprint(&b, fset, n)
+	return strings.Join(strings.Fields(b.String()), " ")
+}
+
+// otherWriters fails on anything in package stub, outside acquireFromHolder and init, that could move the bump pointer or
+// the bounds: an assignment / inc-dec / address-of of placeHolderIns.{off,min,max}, or an assignment to placeHolderIns.
+func otherWriters(dir string) {
+	ents, err := os.ReadDir(dir)
+	if err != nil {
+		panic(err)
+	}
+	isField := func(e ast.Expr) bool {
+		return isSel(e, "placeHolderIns", "off") || isSel(e, "placeHolderIns", "min") || isSel(e, "placeHolderIns", "max")
+	}
+	for _, en := range ents {
+		if en.IsDir() || !strings.HasSuffix(en.Name(), ".go") || strings.HasSuffix(en.Name(), "_test.go") {
+			continue
+		}
+		f, err := parser.ParseFile(fset, filepath.Join(dir, en.Name()), nil, 0)
+		if err != nil {
+			panic(bad{token.NoPos, en.Name() + ": " + err.Error()})
+		}
+		for _, d := range f.Decls {
+			fd, ok := d.(*ast.FuncDecl)
+			if ok && fd.Recv == nil && en.Name() == "holder.go" && (fd.Name.Name == "acquireFromHolder" || fd.Name.Name == "init") {
+				continue
+			}
+			ast.Inspect(d, func(n ast.Node) bool {
+				switch v := n.(type) {
+				case *ast.AssignStmt:
+					for _, l := range v.Lhs {
+						if id, ok := l.(*ast.Ident); ok && id.Name == "placeHolderIns" && v.Tok != token.DEFINE {
+							fail(v, "%s: placeHolderIns is replaced outside init()", en.Name())
+						}
+						if isField(l) {
+							fail(v, "%s: the bump pointer / bounds are written outside acquireFromHolder and init", en.Name())
+						}
+					}
+				case *ast.IncDecStmt:
+					if isField(v.X) {
+						fail(v, "%s: the bump pointer / bounds are written outside acquireFromHolder and init", en.Name())
+					}
+				case *ast.UnaryExpr:
+					if v.Op == token.AND && isField(v.X) {
+						fail(v, "%s: the address of the bump pointer / bounds is taken outside acquireFromHolder (atomic store/add/CAS?)", en.Name())
+					}
+				case *ast.SelectorExpr: // receiver methods / aliases: any p.off, p.min, p.max on a *PlaceHolder other than reads through placeHolderIns
+				}
+				return true
+			})
+			// methods on PlaceHolder could write through the receiver
+			if ok && fd.Recv != nil && len(fd.Recv.List) == 1 && strings.Contains(src(fd.Recv.List[0].Type), "PlaceHolder") {
+				ast.Inspect(fd.Body, func(n ast.Node) bool {
+					chk := func(e ast.Expr) {
+						if se, ok := e.(*ast.SelectorExpr); ok && (se.Sel.Name == "off" || se.Sel.Name == "min" || se.Sel.Name == "max") {
+							fail(e, "%s: method %s writes a PlaceHolder field", en.Name(), fd.Name.Name)
+						}
+					}
+					switch v := n.(type) {
+					case *ast.AssignStmt:
+						for _, l := range v.Lhs {
+							chk(l)
+						}
+					case *ast.IncDecStmt:
+						chk(v.X)
+					case *ast.UnaryExpr:
+						if v.Op == token.AND {
+							chk(v.X)
+						}
+					}
+					return true
+				})
+			}
+		}
+	}
+}
+
+const acquireSrc = `{ if addr, space, err := acquireFromMMap(spaceLen); err == nil { return &Space{ Addr: addr, Space: space, typ: TypeMMap, }, nil } if addr, space, err := acquireFromHolder(spaceLen); err == nil { return &Space{ Addr: addr, Space: space, typ: TypeHolder, }, nil } else { return nil, err } }`
+const writeSwitchSrc = `switch s.typ { case TypeMMap: copy(*s.Space, data[:]) return nil case TypeHolder: return memory.WriteTo(s.Addr, data) default: return fmt.Errorf("stub write fail, illegal type: %d", s.typ) }`
+
+// spaceGo matches Acquire and Write of space.go against the forms that Model/Stub.lean transcribes (`acquire`, `writeVia`,
+// `writeFootprint`) and extracts the optional length guard at the head of Write.
+func spaceGo(repo string, o *out) {
+	rel := "internal/bytecode/stub/space.go"
+	f, err := parser.ParseFile(fset, filepath.Join(repo, rel), nil, 0)
+	if err != nil {
+		panic(bad{token.NoPos, rel + ": " + err.Error()})
+	}
+	seen := 0
+	for _, d := range f.Decls {
+		switch v := d.(type) {
+		case *ast.GenDecl:
+			for _, sp := range v.Specs {
+				if vs, ok := sp.(*ast.ValueSpec); ok && v.Tok == token.CONST {
+					for i, n := range vs.Names {
+						if i < len(vs.Values) {
+							if n.Name == "TypeHolder" && src(vs.Values[i]) != "1" || n.Name == "TypeMMap" && src(vs.Values[i]) != "2" {
+								fail(vs, "space.go: TypeHolder/TypeMMap are 1/2 in the model")
+							}
+						}
+					}
+				}
+			}
+		case *ast.FuncDecl:
+			if v.Recv != nil || v.Body == nil {
+				continue
+			}
+			switch v.Name.Name {
+			case "Acquire":
+				if got := src(v.Body); got != strings.Join(strings.Fields(acquireSrc), " ") {
+					fail(v, "space.go: Acquire is not the two-step dispatch (mmap, then reserve) that Model/Stub.lean `acquire` transcribes")
+				}
+				seen |= 1
+			case "Write":
+				st := v.Body.List
+				o.wreject, o.lwreject = "false", line(v)
+				if len(st) == 2 {
+					is, ok := st[0].(*ast.IfStmt)
+					if !ok || is.Init != nil || is.Else != nil || len(is.Body.List) != 1 {
+						fail(st[0], "space.go: statement before the type switch of Write")
+					}
+					if r, ok := is.Body.List[0].(*ast.ReturnStmt); !ok || len(r.Results) != 1 || src(r.Results[0]) == "nil" {
+						fail(is, "space.go: the guard of Write must return an error")
+					}
+					o.wreject, o.lwreject = wcond(is.Cond), line(is)
+					st = st[1:]
+				}
+				if len(st) != 1 || src(st[0]) != strings.Join(strings.Fields(writeSwitchSrc), " ") {
+					fail(v, "space.go: Write is not the switch (TypeMMap: copy, TypeHolder: memory.WriteTo, default: error) of the model")
+				}
+				seen |= 2
+			}
+		}
+	}
+	if seen != 3 {
+		panic(bad{token.NoPos, rel + ": Acquire or Write not found"})
+	}
+}
+
+// wcond translates the guard of Write over len(data) and len(*s.Space); `s.Space == nil` never holds for a Space from Acquire.
+func wcond(e ast.Expr) string {
+	term := func(e ast.Expr) string {
+		switch src(e) {
+		case "len(data)":
+			return "dataLen"
+		case "len(*s.Space)", "cap(*s.Space)":
+			return "regionLen"
+		}
+		if l, ok := e.(*ast.BasicLit); ok && l.Kind == token.INT {
+			return l.Value
+		}
+		fail(e, "space.go: guard of Write may only compare len(data) with len(*s.Space)")
+		return ""
+	}
+	switch v := e.(type) {
+	case *ast.ParenExpr:
+		return wcond(v.X)
+	case *ast.BinaryExpr:
+		if src(v) == "s.Space == nil" {
+			return "false"
+		}
+		switch v.Op {
+		case token.LAND:
+			return "(" + wcond(v.X) + " && " + wcond(v.Y) + ")"
+		case token.LOR:
+			return "(" + wcond(v.X) + " || " + wcond(v.Y) + ")"
+		case token.GTR, token.GEQ, token.LSS, token.LEQ, token.EQL, token.NEQ:
+			op := map[token.Token]string{token.GTR: ">", token.GEQ: "≥", token.LSS: "<", token.LEQ: "≤", token.EQL: "=", token.NEQ: "≠"}[v.Op]
+			return "decide (" + term(v.X) + " " + op + " " + term(v.Y) + ")"
+		}
+	}
+	fail(e, "space.go: guard of Write")
+	return ""
+}
+
+// makeMethod reads interfaceJumpDataLen and insists that every stub.Acquire in package iface asks for exactly that many bytes.
+func makeMethod(repo string, o *out) {
+	dir := filepath.Join(repo, "internal/iface")
+	ents, _ := os.ReadDir(dir)
+	var names []string
+	for _, en := range ents {
+		if strings.HasSuffix(en.Name(), ".go") && !strings.HasSuffix(en.Name(), "_test.go") {
+			names = append(names, en.Name())
+		}
+	}
+	sort.Strings(names)
+	calls := 0
+	for _, n := range names {
+		f, err := parser.ParseFile(fset, filepath.Join(dir, n), nil, 0)
+		if err != nil {
+			panic(bad{token.NoPos, n + ": " + err.Error()})
+		}
+		ast.Inspect(f, func(nd ast.Node) bool {
+			switch v := nd.(type) {
+			case *ast.ValueSpec:
+				for i, id := range v.Names {
+					if id.Name == "interfaceJumpDataLen" && i < len(v.Values) {
+						l, ok := v.Values[i].(*ast.BasicLit)
+						if !ok || l.Kind != token.INT {
+							fail(v, "iface: interfaceJumpDataLen must be an integer literal")
+						}
+						o.jumpLen = l.Value
+					}
+				}
+			case *ast.CallExpr:
+				if isSel(v.Fun, "stub", "Acquire") {
+					calls++
+					if len(v.Args) != 1 || src(v.Args[0]) != "interfaceJumpDataLen" {
+						fail(v, "iface/%s: stub.Acquire is not called with interfaceJumpDataLen", n)
+					}
+				}
+			}
+			return true
+		})
+	}
+	if o.jumpLen == "" || calls == 0 {
+		panic(bad{token.NoPos, "internal/iface: interfaceJumpDataLen / stub.Acquire call not found"})
+	}
+}
+
 func isLoggerCall(s ast.Stmt) bool {
 	es, ok := s.(*ast.ExprStmt)
 	if !ok {
@@ -191,6 +457,11 @@ type out struct {
 	l1, l2, lret              int
 	ioff, imin, imax          string
 	linit                     int
+	guard                     string // leading `if <cond on len> { return 0, nil, err }` of acquireFromHolder ("false" if absent)
+	lguard                    int
+	wreject                   string // leading length guard of Write ("false" if absent)
+	lwreject                  int
+	jumpLen                   string // interfaceJumpDataLen
 }
 
 func line(n ast.Node) int { return fset.Position(n.Pos()).Line }
@@ -205,6 +476,13 @@ func acquire(fd *ast.FuncDecl, o *out) {
 	}
 	en := env{ps[0].Names[0].Name: "len"}
 	st := strip(fd.Body.List)
+	o.guard, o.lguard = "false", line(fd)
+	if len(st) > 0 {
+		if is, ok := st[0].(*ast.IfStmt); ok { // optional argument check before any shared access
+			o.guard, o.lguard = icond(errorIf(is), ps[0].Names[0].Name), line(is)
+			st = st[1:]
+		}
+	}
 	if len(st) < 6 {
 		fail(fd, "body has %d statements, the model has six steps", len(st))
 	}
@@ -323,7 +601,13 @@ func main() {
 		if r := recover(); r != nil {
 			if b, ok := r.(bad); ok {
 				p := fset.Position(b.pos)
-				fmt.Fprintf(os.Stderr, "%s:%d: untranslatable: %s\n", rel, p.Line, b.msg)
+				name := rel
+				if p.Filename != "" {
+					if r, err := filepath.Rel(*repo, p.Filename); err == nil {
+						name = r
+					}
+				}
+				fmt.Fprintf(os.Stderr, "%s:%d: untranslatable: %s\n", name, p.Line, b.msg)
 				os.Exit(1)
 			}
 			panic(r)
@@ -354,6 +638,9 @@ func main() {
 		fmt.Fprintf(os.Stderr, "%s:1: untranslatable: acquireFromHolder or init not found\n", rel)
 		os.Exit(1)
 	}
+	otherWriters(filepath.Join(*repo, "internal/bytecode/stub"))
+	spaceGo(*repo, &o)
+	makeMethod(*repo, &o)
 	var b strings.Builder
 	w := func(format string, a ...interface{}) { fmt.Fprintf(&b, format, a...) }
 	w("-- GENERATED by tools/genstub from %s — do not edit.\n", rel)
@@ -369,6 +656,9 @@ func main() {
 	w("/-- SliceHeader.Data -/\ndef sliceData %s : Nat := %s\n", args, o.data)
 	w("/-- SliceHeader.Len -/\ndef sliceLen %s : Nat := %s\n", args, o.ln)
 	w("/-- SliceHeader.Cap -/\ndef sliceCap %s : Nat := %s\n", args, o.cp)
+	w("/-- holder.go:%d — argument check before any shared access (false: there is none); `ilen` is the Go `int` -/\ndef guardFails (ilen : Int) : Bool := %s\n", o.lguard, o.guard)
+	w("/-- space.go:%d — Write refuses the data before touching memory (false: no such check) -/\ndef writeRejects (dataLen regionLen : Nat) : Bool := %s\n", o.lwreject, o.wreject)
+	w("/-- make_method.go — bytes requested per interface-method stub (every stub.Acquire in package iface asks for this) -/\ndef interfaceJumpDataLen : Nat := %s\n", o.jumpLen)
 	w("/-- holder.go:%d — init(): PlaceHolder{off, min, max} from the placeholder's entry and scanned size -/\n", o.linit)
 	w("def initOff (offset size : Nat) : Nat := %s\ndef initMin (offset size : Nat) : Nat := %s\ndef initMax (offset size : Nat) : Nat := %s\n", o.ioff, o.imin, o.imax)
 	w("\nend Gen.StubHolder\n")
